@@ -3388,8 +3388,13 @@ class CallExpander:
         return self.cache[path]
 
     def expand(self, n, depth=0):
-        r = self._expand(n, depth)
-        if depth == 0:
+        self._nest = getattr(self, "_nest", 0) + 1
+        try:
+            r = self._expand(n, depth)
+        finally:
+            self._nest -= 1
+        if depth == 0 and self._nest == 0:
+            # (once, on the whole value: the passes below walk all of it)
             r = self._fold_const_components(r)
             r = self._fold_cow_matches(r)
         return nf_simplify(r) if depth == 0 else r     # `Struct { f: e, .. }.f` of an expanded constructor helper is e
